@@ -51,14 +51,14 @@ theorem C04_build (h : Tree Tok Str) (ps : Pairs Tok Str) (hops : OpsIn ranks ps
 theorem C04_div_zero (op : String) (hop : op = "/" ∨ op = "//" ∨ op = "%") (l : Val)
     (hl : (∃ i, l = .int i) ∨ (∃ m k, l = .flt m k)) :
     Val.binop op l (.int 0) = .cerr .divideByZero := by
-  rcases hop with rfl | rfl | rfl <;> rcases hl with ⟨i, rfl⟩ | ⟨m, k, rfl⟩ <;> simp [Val.binop, Val.num?]
+  rcases hop with rfl | rfl | rfl <;> rcases hl with ⟨i, rfl⟩ | ⟨m, k, rfl⟩ <;> simp [Val.binop, Val.cmpOp, Val.addOp, Val.arithOp, Val.numOp, Val.num?]
 
 /-- `+` concatenates when either side is a string -/
 theorem C04_concat (a : Str) (r : Val) (b : Str) (hr : r.pyStr = .ok b) :
     Val.binop "+" (.str a) r = .ok (.str (a ++ b)) ∧
     (∀ i : Int, Val.hugeInt i = false → Val.binop "+" (.int i) (.str a) = .ok (.str (intToStr i ++ a))) := by
-  refine ⟨by simp [Val.binop, hr, bind], fun i hi => ?_⟩
-  simp [Val.binop, Val.pyStr, hi, bind]
+  refine ⟨by simp [Val.binop, Val.cmpOp, Val.addOp, Val.arithOp, Val.numOp, hr, bind], fun i hi => ?_⟩
+  simp [Val.binop, Val.cmpOp, Val.addOp, Val.arithOp, Val.numOp, Val.pyStr, hi, bind]
 
 /-- integer arithmetic is integer arithmetic (results below the model's size guard) -/
 theorem C04_int_arith (a b : Int) :
@@ -68,21 +68,21 @@ theorem C04_int_arith (a b : Int) :
     (b ≠ 0 → Val.hugeInt (Int.fdiv a b) = false → Val.binop "//" (.int a) (.int b) = .ok (.int (Int.fdiv a b))) ∧
     (b ≠ 0 → Val.hugeInt (Int.fmod a b) = false → Val.binop "%" (.int a) (.int b) = .ok (.int (Int.fmod a b))) := by
   refine ⟨?_, ?_, ?_, ?_, ?_⟩
-  · intro h; simp [Val.binop, Val.num?, Val.align, Val.mkNum, h]
-  · intro h; simp [Val.binop, Val.num?, Val.align, Val.mkNum, h]
-  · intro h; simp [Val.binop, Val.num?, Val.mkNum, h]
-  · intro hb h; simp [Val.binop, Val.num?, Val.align, Val.mkNum, h, hb]
-  · intro hb h; simp [Val.binop, Val.num?, Val.align, Val.mkNum, h, hb]
+  · intro h; simp [Val.binop, Val.cmpOp, Val.addOp, Val.arithOp, Val.numOp, Val.num?, Val.align, Val.mkNum, h]
+  · intro h; simp [Val.binop, Val.cmpOp, Val.addOp, Val.arithOp, Val.numOp, Val.num?, Val.align, Val.mkNum, h]
+  · intro h; simp [Val.binop, Val.cmpOp, Val.addOp, Val.arithOp, Val.numOp, Val.num?, Val.mkNum, h]
+  · intro hb h; simp [Val.binop, Val.cmpOp, Val.addOp, Val.arithOp, Val.numOp, Val.num?, Val.align, Val.mkNum, h, hb]
+  · intro hb h; simp [Val.binop, Val.cmpOp, Val.addOp, Val.arithOp, Val.numOp, Val.num?, Val.align, Val.mkNum, h, hb]
 
 theorem C04_comparisons (a b : Int) :
     Val.binop "<" (.int a) (.int b) = .ok (.bool (decide (a < b))) ∧
     Val.binop "==" (.int a) (.int b) = .ok (.bool (decide (a = b))) := by
   constructor
-  · simp only [Val.binop, Val.num?, Val.cmpNum, Val.align]
+  · simp only [Val.binop, Val.cmpOp, Val.addOp, Val.arithOp, Val.numOp, Val.num?, Val.cmpNum, Val.align]
     by_cases h : a < b
     · simp [h, compare, compareOfLessAndEq]
     · simp [h, compare, compareOfLessAndEq]; split <;> simp
-  · simp only [Val.binop, Val.pyEq, Val.num?, Val.cmpNum, Val.align, Val.isList]
+  · simp only [Val.binop, Val.cmpOp, Val.addOp, Val.arithOp, Val.numOp, Val.pyEq, Val.num?, Val.cmpNum, Val.align, Val.isList]
     by_cases h : a = b
     · subst h; simp [compare, compareOfLessAndEq]
     · by_cases h2 : a < b <;> simp [compare, compareOfLessAndEq, h, h2]
